@@ -218,6 +218,8 @@ def _fuzz_prefetch_determinism(tier):
 
 EXTRA_FUZZ = [('bounded-pipeline-fuzz', _fuzz)]
 
+_KEYLESS = ('bounded-keyless-snapshots', _mk('keyless_snapshots', '28 stage constructions over list-backed (key-less) inputs of 0,1,3 (0..4) examples: items() is refused with ItemsNotDefined (never another exception), from_dataset(ds) and new(ds) deliver the examples of one iteration'))
+
 EXTRA_MORE = {
     'C02': [('bounded-offered-lengths', _mk('offered_lengths', 'sources of 0,1,2,5,8 examples; lazy apply (slice / eager filter / tile / shuffle), filter, catch, unbatch, reshuffle, local shuffle, prefetch, dynamic buckets, each also under map / batch / local shuffle: len() is refused or equals the iteration count')),
             ('bounded-numpy-indices', _mk('numpy_indices', '18 pipelines over 300 examples, 28 boundary indices, np.int8/uint8/int16 (quick) plus uint16/int32/int64 (thorough): ds[dtype(i)] equals ds[int(i)]'))],
@@ -228,7 +230,7 @@ EXTRA_MORE = {
     'C09': [('bounded-isolation-fuzz', _fuzz_isolation), ('bounded-snapshot-isolation', _mk('snapshot_isolation', 'from_dataset / new(src) / cache(lazy=False) of dict- and list-backed sources stored in pickle, copy, wu mode: isolated from later mutation of the original objects and of handed-out examples')),
             ('bounded-isolation-more', _mk('isolation_more', 'example shapes dict / tuple / namedtuple / list with mutable parts; pickle, copy, wu, memory and disk cache; mutation inside a running first-epoch loop, over items(), through a copy, after an aborted epoch, after the next example was requested; re-read by iteration, index, copy')),
             ('bounded-isolation', _mk('isolation', 'new/from_list in pickle, copy, wu mode and memory/disk cache; 7 access paths, miss and hit, nested in-place mutations'))],
-    'C10': [('bounded-cache-histories', _mk('cache_histories', 'all access histories of length 2 (3 thorough) over 17 operations on a 4-example cache with a freshly random upstream; memory threshold crossed after 0..4 stores'))],
+    'C10': [_KEYLESS, ('bounded-cache-histories', _mk('cache_histories', 'all access histories of length 2 (3 thorough) over 17 operations on a 4-example cache with a freshly random upstream; memory threshold crossed after 0..4 stores'))],
     'C14': [('bounded-catch', _mk('catch_epochs', 'sources of 0..7 examples, all failing subsets up to size 3, single type / tuple / subclass, values and items, two epochs, reshuffled upstream over 4 epochs, lazy/eager/FilterException selection'))],
     'C15': [('bounded-split', _mk('split_exhaustive', 'all (n, k, i) with n <= 40 (300 thorough), k in [-1, n+2], shard indices {0, k-1, -1}'))],
     'C20': [('bounded-profiling-stage-counts', _mk('profiling_stage_counts', '10 linear element-wise pipelines (map / slice / shuffles / catch / prefetch(1) / cache / sort) over 3 and 6 (1,3,6,9) examples, two epochs: per-stage hits = examples delivered, profiled = identically seeded unprofiled twin')),
@@ -238,7 +240,7 @@ EXTRA_MORE = {
 }
 
 EXTRA_INIT = [('bounded-intersperse-init', _intersperse_init)]
-EXTRA_KEYS = [('bounded-keyzip-init', _keyzip_init), ('bounded-concatenate-keys', _concat_keys)]
+EXTRA_KEYS = [('bounded-keyzip-init', _keyzip_init), ('bounded-concatenate-keys', _concat_keys), _KEYLESS]
 
 _C13_CLAUSES = {'seed-determinism', 'copy-determinism', 'frozen-stays-frozen', 'prefetch-determinism',
                 'copy-of-a-pipeline-sharing-one-reshuffle-object'}
